@@ -115,17 +115,24 @@ def run_case(case, ctx):
             _cmp(ctx, op, denote(a[0]), denote(b[0]), "same seed twice", exact=True)
         elif rel == "scale":
             base = seeded(ttb.cp_als, T, R, printitn=0, **kw)
-            for c in (2.0, 0.5, 3.7, 2.0 ** -12):
+            for c in (2.0, 0.5, 3.7, 2.0 ** -12, 1e-6, 1e-9, 1e7):
                 o = seeded(ttb.cp_als, ttb.tensor(X * c), R, printitn=0, **kw)
                 _cmp(ctx, op, c * denote(base[0]), denote(o[0]), f"data scaled by {c}", scale=c)
                 ctx.check(abs(base[2]["fit"] - o[2]["fit"]) <= 1e-8, op, "DIFFERS", f"fit changed under scaling by {c}", what="fit")
         elif rel == "dense-sparse":
             Xs = X * (rng.random(shape) < 0.7)
+            if case["cseed"] % 3 == 1:
+                # count-like data held in an integer element type (dense and sparse)
+                Xs = np.round(np.abs(Xs) * 6.0).astype([np.int64, np.int32][case["cseed"] % 2])
+                ctx.feat(data_type=str(Xs.dtype))
             M0 = ttb.ktensor([rng.random((s, R)) for s in shape])
             a = _quiet(ttb.cp_als, ttb.tensor(Xs.copy()), R, init=M0.copy(), printitn=0, **kw)
-            S = gen.mk_sptensor(ttb, Xs, gen.stored_order(rng, int(np.count_nonzero(Xs)), "shuffled"))
+            S = gen.mk_sptensor(ttb, Xs, gen.stored_order(rng, int(np.count_nonzero(Xs)), "shuffled"), dtype=(Xs.dtype if Xs.dtype != float else None))
             b = _quiet(ttb.cp_als, S, R, init=M0.copy(), printitn=0, **kw)
             _cmp(ctx, op, denote(a[0]), denote(b[0]), "dense vs sparse data")
+            if Xs.dtype != float:
+                c_ = _quiet(ttb.cp_als, ttb.tensor(Xs.astype(float)), R, init=M0.copy(), printitn=0, **kw)
+                _cmp(ctx, op, denote(a[0]), denote(c_[0]), "integer-typed vs float-typed dense data", which="dtype")
         else:
             M0 = ttb.ktensor([rng.random((s, R)) for s in shape])
             do = [1, 2, 0]
@@ -142,7 +149,7 @@ def run_case(case, ctx):
                 _cmp(ctx, op, denote(base), denote(_quiet(ttb.hosvd, T, 0.3, verbosity=vb)), f"verbosity 0 vs {vb}", verbosity=vb)
         elif rel == "scale":
             base = _quiet(ttb.hosvd, T, 0.3, verbosity=0)
-            for c in (2.0, 0.25, 3.7, 2.0 ** -12, 2.0 ** 10):
+            for c in (2.0, 0.25, 3.7, 2.0 ** -12, 2.0 ** 10, 1e-7, 1e-10, 1e8):
                 o = _quiet(ttb.hosvd, ttb.tensor(X * c), 0.3, verbosity=0)
                 _cmp(ctx, op, c * denote(base), denote(o), f"data scaled by {c}", scale=c)
                 ctx.check(tuple(o.core.shape) == tuple(base.core.shape), op, "DIFFERS", "ranks changed under scaling", what="ranks")
@@ -168,7 +175,7 @@ def run_case(case, ctx):
             _cmp(ctx, op, denote(a[0]), denote(b[0]), "same seed twice")
         elif rel == "scale":
             base = seeded(ttb.tucker_als, T, rk, printitn=0, **kw)
-            for c in (2.0, 3.7):
+            for c in (2.0, 3.7, 1e-6, 1e-9, 1e7):
                 o = seeded(ttb.tucker_als, ttb.tensor(X * c), rk, printitn=0, **kw)
                 _cmp(ctx, op, c * denote(base[0]), denote(o[0]), f"data scaled by {c}", scale=c)
                 ctx.check(abs(base[2]["fit"] - o[2]["fit"]) <= 1e-8, op, "DIFFERS", f"fit changed under scaling by {c}", what="fit")
